@@ -54,7 +54,9 @@ func (f *IgnoreErrors) Call(s *slip.Scope, args slip.List, depth int) (result sl
 	}()
 	d2 := depth + 1
 	for i := range args {
-		result = slip.EvalArg(s, args, i, d2)
+		if result = slip.EvalArg(s, args, i, d2); slip.IsExit(result) {
+			break
+		}
 	}
 	return
 }
